@@ -333,13 +333,14 @@ Definition fun_form (kv : string * frec) : obj :=
       L ([Sym (if macro then "defmacro" else "defun"); Sym n; mkL ll] ++ (if (d =? "")%string then [] else [Str d]) ++ body)
   end.
 
-(* pkg/gi/snapshot.go AppendSnapshot: constants, flavors (by name; components first, which the flavors of the model do
-   not have: repo_fixes/C19-20), variables, then the macros and after them the functions (repo_fixes/C19-16) *)
+(* pkg/gi/snapshot.go AppendSnapshot: flavors (by name; components first, which the flavors of the model do
+   not have: repo_fixes/C19-20), constants (after the flavors since repo_fixes/C19-33: the value of a constant can be an
+   instance), variables, then the macros and after them the functions (repo_fixes/C19-16) *)
 Definition is_macro (kv : string * frec) : bool := f_macro (snd kv).
 Definition funs_order (l : list (string * frec)) : list (string * frec) :=
   filter is_macro l ++ filter (fun kv => negb (is_macro kv)) l.
 Definition snapshot (s : session) : list obj :=
-  flat_map const_forms (sort_by (s_vars s)) ++ flat_map flavor_forms (sort_by (s_vars s))
+  flat_map flavor_forms (sort_by (s_vars s)) ++ flat_map const_forms (sort_by (s_vars s))
   ++ flat_map var_forms (sort_by (s_vars s)) ++ map fun_form (funs_order (sort_by (s_funs s))).
 
 (* the session rebuilt from its snapshot, and the snapshot of that *)
